@@ -9,6 +9,7 @@
 #include "session.hpp"
 #include "xzutil.hpp"
 #include "../model/refxz.hpp"
+#include "reflz.hpp"
 
 #include <algorithm>
 #include <dirent.h>
@@ -709,6 +710,16 @@ static void c05_exec(const Plan &plan, Verdict &v)
 	Outcome clean; Delivery d0; drive(sp, a.file, d0, clean);
 	if (clean.status != LZMA_STREAM_END) { v.count("runs.clean_not_accepted"); return; }
 	std::string ctx = fmt(" [%s (%zu bytes, %zu faults), %s, concatenated %d]", a.name.c_str(), a.file.size(), plan.ops.size(), dec_names[sp.kind], (int)concat);
+	if (o.error.empty() && o.status == LZMA_STREAM_END && o.out != clean.out && damaged != a.file) {
+		// Inserting, duplicating or deleting bytes can produce another file that is valid in its own
+		// right (a whole member or Stream duplicated or removed). The independent reference parser
+		// decides; such a file must then decode to the specification's bytes.
+		bool ref_valid = false; Bytes ref_out;
+		if (a.fmt == 0) { ref::XzResult w = ref::parse_xz(damaged.data(), damaged.size(), concat); ref_valid = w.verdict == ref::XZ_VALID; ref_out.swap(w.out); }
+		else if (a.fmt == 2) { LzResult w = ref_lzip(damaged, concat); ref_valid = w.verdict == 0; ref_out.swap(w.out); }
+		else if (a.fmt == 1) { ref::AloneResult w = ref::decode_alone(damaged.data(), damaged.size()); ref_valid = w.valid && w.consumed == damaged.size(); ref_out.swap(w.out); }
+		if (ref_valid && ref_out == o.out) { v.count("reach.damage_produced_another_valid_file"); return; }
+	}
 	judge_c05(v, a.file, damaged, clean.out, a.has_check, o, false, false, ctx, a.fmt == 2 ? &a.member_ends : nullptr, a.fmt == 2 ? &a.member_plain_ends : nullptr);
 	v.feature(fnv_str(plan.to_text(false)));
 	v.feature2(mix64((uint64_t)sp.kind, mix64((uint64_t)o.status, (uint64_t)a.fmt)));
